@@ -265,8 +265,34 @@ def cache_params():
 
 
 def exec_params():
-    out = dict(start='StartUnknown', ctor='CtorUnknown', wait='WaitUnknown', snap='SnapUnknown', launch='LaunchUnknown')
+    out = dict(start='StartUnknown', ctor='CtorUnknown', wait='WaitUnknown', snap='SnapUnknown', launch='LaunchUnknown',
+               view='ViewUnknown', scope='ExecScopeUnknown')
     pr = _src('runners/process.py')
+    # the dict of in-memory results: registered for forked workers when the fork runner is built, and never re-bound afterwards?
+    fi = _find(pr, 'ForkProcessRunner', '__init__')
+    registered = fi is not None and any(
+        isinstance(n, ast.Assign) and '_RUNNER_FORK_MEMORY[' in ast.unparse(n.targets[0]) and 'results_map=self.results_map' in ast.unparse(n.value)
+        for n in ast.walk(fi))
+    if registered:
+        rebinds = []
+        for cls in [n for n in pr.body if isinstance(n, ast.ClassDef)]:
+            for fn_ in [n for n in cls.body if isinstance(n, ast.FunctionDef) and n.name != '__init__']:
+                for n in ast.walk(fn_):
+                    targets = n.targets if isinstance(n, ast.Assign) else ([n.target] if isinstance(n, (ast.AnnAssign, ast.AugAssign)) else [])
+                    rebinds += [t for t in targets if ast.unparse(t) == 'self.results_map']
+        out['view'] = 'ViewRebinds' if rebinds else 'ViewInPlace'
+    # every process runner builds its own executor, and the executor class keeps no mutable container at class level
+    ri = _find(pr, 'ProcessRunner', '__init__')
+    ex_cls = [n for n in pr.body if isinstance(n, ast.ClassDef) and n.name == 'ProcessExecutor']
+    if ri is not None and ex_cls:
+        built = [n for n in ast.walk(ri) if isinstance(n, ast.Assign) and isinstance(n.value, ast.Call) and ast.unparse(n.value.func) == 'ProcessExecutor'
+                 and ast.unparse(n.targets[0]).startswith('self.')]
+        class_level = [n for n in ex_cls[0].body if isinstance(n, (ast.Assign, ast.AnnAssign)) and n.value is not None
+                       and isinstance(n.value, (ast.Dict, ast.List, ast.Set, ast.Call, ast.DictComp, ast.ListComp, ast.SetComp))]
+        if class_level:
+            out['scope'] = 'ExecShared'
+        elif len(built) == 1:
+            out['scope'] = 'ExecPerRunner'
     w = _find(pr, 'ProcessExecutor', 'wait')
     if w is not None:
         stm = [ast.unparse(n) for n in w.body if not (isinstance(n, ast.Expr) and isinstance(n.value, ast.Constant))]
@@ -478,6 +504,8 @@ def with_probes():
     _settle(ep, 'wait', 'WaitUnknown', probed)
     _settle(ep, 'snap', 'SnapUnknown', probed)
     _settle(ep, 'launch', 'LaunchUnknown', probed)
+    _settle(ep, 'view', 'ViewUnknown', probed)
+    _settle(ep, 'scope', 'ExecScopeUnknown', probed)
     sg = storage_params()
     _settle(sg, 'g_chars', None, probed)
     for k in ('g_empty', 'g_key_parent', 'g_file_parent', 'g_delete_validates'):
@@ -528,7 +556,9 @@ def render():
               'Definition proc_ctor_src : proc_ctor := %(ctor)s.' % ep,
               'Definition wait_policy_src : wait_policy := %(wait)s.' % ep,
               'Definition snapshot_src : snap_pos := %(snap)s.' % ep,
-              'Definition launch_order_src : launch_order := %(launch)s.' % ep]
+              'Definition launch_order_src : launch_order := %(launch)s.' % ep,
+              'Definition results_view_src : view_mode := %(view)s.' % ep,
+              'Definition exec_scope_src : exec_scope := %(scope)s.' % ep]
     lines += ['Definition save_order_src : save_order := %(order)s.' % cp,
               'Definition save_cleanup_src : save_cleanup := %(cleanup)s.' % cp]
     chars = sg['g_chars']
